@@ -356,7 +356,9 @@ def registry(I):
     def sel_after_generic_transform(scale):
         def build():
             # populations whose range entries were produced by the generic transform() (numpy arrays, lower limit 0)
-            d = FlowCal.transform.transform(I.beads(), 'FL1', np.arcsinh)
+            with warnings.catch_warnings():
+                warnings.simplefilter('ignore')
+                d = FlowCal.transform.transform(FlowCal.io.FCSData(I.bpath), 'FL1', np.arcsinh)     # raw: the range starts at 0
             fl = np.asarray(d[:, 'FL1'].view(np.ndarray))
             cut = np.median(fl)
             pops_ = [d[fl < cut][:, 'FL1'], d[fl >= cut][:, 'FL1']]
